@@ -460,6 +460,15 @@ func (r *sortReg) zero(t types.Type) Term {
 	panic(unsupported("zero of " + t.String()))
 }
 
+// eltFn: slice element access elt(content, off, i) = content[off+i], as a function symbol so that
+// quantifier patterns over slice elements contain no arithmetic (solvers normalise arithmetic terms,
+// which makes patterns with + unreliable).
+func (r *sortReg) eltFn(elemSort string) string {
+	n := sym("ys.elt." + sanitizeFile(elemSort))
+	r.decl(n, fmt.Sprintf("(declare-fun %s ((Array Int %s) Int Int) %s)\n(assert (forall ((m (Array Int %s)) (o Int) (i Int)) (! (= (%s m o i) (select m (+ o i))) :pattern ((%s m o i)))))", n, elemSort, elemSort, elemSort, n, n))
+	return n
+}
+
 // constArray: the array that maps every index to v. cvc5 accepts (as const ...) only for values,
 // so for a non-value (the zero of a type parameter) a named array with a defining axiom is used.
 func (r *sortReg) constArray(elemSort string, v Term) Term {
@@ -484,6 +493,8 @@ func (r *sortReg) specSort(t *SType) string {
 		return "(Array " + r.specSort(t.Key) + " " + r.specSort(t.Elem) + ")"
 	case "data", "abstract":
 		return sym("ys.D." + t.Name)
+	case "real":
+		return "Real"
 	}
 	panic(unsupported("spec sort " + t.String()))
 }
